@@ -98,7 +98,7 @@ def strategy(tier):
 
 
 def examples(tier):
-    return 1280 if tier == "quick" else 20000
+    return 1280 if tier == "quick" else 50000
 
 
 def select(case, rows):
